@@ -440,3 +440,53 @@ def r5(ctx):
         ctx.check(not bad, fi, f"kernel reads only modules, functions and constants from module scope ({n_glob} global reads)",
                   line=bad[0].lineno if bad else fi.node.lineno, role="globals", expected="no mutable module-level object",
                   found=", ".join(sorted({x.id for x in bad})))
+
+
+RANDOM_PREFIXES = ("numpy.random.", "random.", "secrets.", "uuid.", "time.time", "os.urandom")
+
+
+@rule("C15", "R6", "CENSUS", "nothing outside the guard module branches on Numba's availability, and no kernel draws random numbers", evidence=True)
+def r6(ctx):
+    """Two ways to make the three execution modes differ that no kernel template sees: a second implementation selected when
+    Numba is missing, and a random draw inside a kernel (Numba has its own generator, which ignores numpy.random.seed)."""
+    ana = ctx.ana
+    guard = "fast_ticc.numba_guard"
+    bad = []
+    for mi in ana.prog.modules.values():
+        if mi.name == guard:
+            continue
+        for n in ast.walk(mi.tree):
+            d = ana.res.dotted(n) if isinstance(n, (ast.Attribute, ast.Name)) else None
+            if not d:
+                continue
+            root = mi.imports.get(d[0])
+            fq = ".".join(([root] if root else [d[0]]) + d[1:])
+            if fq.endswith("numba_guard.NUMBA_AVAILABLE") or fq == "NUMBA_AVAILABLE" and mi.imports.get("NUMBA_AVAILABLE", "").endswith("NUMBA_AVAILABLE"):
+                bad.append((mi, n, "NUMBA_AVAILABLE"))
+            elif root == "numba" or (root or "").startswith("numba."):
+                bad.append((mi, n, fq))
+    seen = set()
+    for mi, n, what in bad:
+        key = (mi.name, what)
+        if key in seen:
+            continue
+        seen.add(key)
+        ctx.fail(mi.name, f"`{what}` is used outside the guard module (line {n.lineno}): behaviour may now depend on whether Numba is installed",
+                 line=n.lineno, role=f"availability:{mi.name.split('.')[-1]}:{what}", expected="only fast_ticc.numba_guard looks at Numba", found=what)
+    if not bad:
+        ctx.ok("package", "only fast_ticc.numba_guard refers to numba / NUMBA_AVAILABLE", role="availability")
+    n_k = 0
+    for fi, d in njit_kernels(ana):
+        n_k += 1
+        rnd = []
+        for cs in ana.res.calls(fi):
+            t = cs.callee.target or ""
+            if any(t.startswith(p) for p in RANDOM_PREFIXES):
+                rnd.append((cs, t))
+        for cs, t in rnd:
+            ctx.fail(fi, f"kernel calls {t}: under JIT the draw comes from Numba's own generator, not from the seeded NumPy/Python one",
+                     line=cs.node.lineno, role=f"kernel-random:{short(fi.qualname)}:{t}", expected="deterministic kernels", found=t)
+        if not rnd:
+            ctx.ok(fi, "kernel draws no random numbers", role=f"kernel-random:{short(fi.qualname)}")
+    if n_k == 0:
+        raise AnalysisError("no njit kernel found")
